@@ -96,6 +96,7 @@ type Exec struct {
 	compLeaf    map[string]Leaf
 	slenAxiom   bool
 	ranged      map[int]bool
+	mapLenKeys  map[string]bool
 	curAlloc    *Term
 	slotAxiom   bool
 	pendingDyn  map[string]*Term
@@ -176,6 +177,7 @@ func (x *Exec) reset() {
 	x.dynDone = map[string]bool{}
 	x.extDone = map[string]bool{}
 	x.ranged = map[int]bool{}
+	x.mapLenKeys = map[string]bool{}
 }
 
 func (x *Exec) note(s string) {
@@ -553,121 +555,7 @@ func (x *Exec) execFuncIn(caller *Frame, fn *ssa.Function, args []Val, bindings 
 	order := rpo(fn)
 	edge := map[*ssa.BasicBlock]map[*ssa.BasicBlock]*State{}
 	var rets []retInfo
-	for _, b := range order {
-		fr.curBlock = b
-		var in *State
-		li := fr.loops[b]
-		if b == fn.Blocks[0] {
-			in = st.Clone()
-		} else {
-			var incoming []*State
-			for _, p := range b.Preds {
-				if backEdge(p, b) {
-					continue
-				}
-				if e := edge[p][b]; e != nil {
-					incoming = append(incoming, e)
-				}
-			}
-			in = x.mergeStates(incoming)
-		}
-		if in == nil {
-			continue
-		}
-		if isUnit && li == nil && x.splitReturn(fr, b, edge, &rets) {
-			continue
-		}
-		// phis (entry values for loop headers)
-		phiEntry := map[*ssa.Phi]Val{}
-		for _, ins := range b.Instrs {
-			phi, ok := ins.(*ssa.Phi)
-			if !ok {
-				break
-			}
-			var v Val
-			first := true
-			for i, p := range b.Preds {
-				if backEdge(p, b) {
-					continue
-				}
-				e := edge[p][b]
-				if e == nil || isFalse(e.PC) {
-					continue
-				}
-				pv := x.val(fr, phi.Edges[i])
-				if first {
-					v = pv
-					first = false
-				} else {
-					v = x.iteVal(e.PC, pv, v)
-				}
-			}
-			phiEntry[phi] = v
-			fr.env[phi] = v
-			if phi.Comment != "" {
-				fr.names[phi.Comment] = phi
-			}
-		}
-		if li != nil {
-			in = x.enterLoop(fr, li, in, phiEntry)
-			if in == nil {
-				continue
-			}
-		}
-		// push active loops for blocks inside loops of this frame
-		pushed := 0
-		for _, l := range fr.loops {
-			if l.body[b] {
-				x.activeLoops = append(x.activeLoops, l.key)
-				pushed++
-			}
-		}
-		cur := in
-		ended := false
-		for _, ins := range b.Instrs {
-			if _, ok := ins.(*ssa.Phi); ok {
-				continue
-			}
-			if isFalse(cur.PC) {
-				ended = true
-				break
-			}
-			x.curSite = x.siteOf(fr, ins)
-			switch t := ins.(type) {
-			case *ssa.If:
-				cond := x.val(fr, t.Cond).(VBool).T
-				s0 := cur.Clone()
-				s0.PC = x.C.And(cur.PC, cond)
-				s1 := cur.Clone()
-				s1.PC = x.C.And(cur.PC, x.C.Not(cond))
-				x.setEdge(fr, edge, b, b.Succs[0], s0)
-				x.setEdge(fr, edge, b, b.Succs[1], s1)
-				ended = true
-			case *ssa.Jump:
-				x.setEdge(fr, edge, b, b.Succs[0], cur)
-				ended = true
-			case *ssa.Return:
-				// deferred calls were run by the explicit RunDefers instruction that precedes every return
-				var vals []Val
-				for _, r := range t.Results {
-					vals = append(vals, x.val(fr, r))
-				}
-				rets = append(rets, retInfo{cur, vals})
-				ended = true
-			case *ssa.Panic:
-				x.oblige(cur, "safe:assert", "panic", x.siteOf(fr, ins), "explicit panic reachable", x.C.False())
-				ended = true
-			default:
-				if !x.safeExecInstr(fr, cur, ins) {
-					ended = true
-				}
-			}
-			if ended {
-				break
-			}
-		}
-		x.activeLoops = x.activeLoops[:len(x.activeLoops)-pushed]
-	}
+	x.runBlocks(fr, order, fn.Blocks[0], st, nil, edge, &rets, isUnit)
 	if len(rets) == 0 {
 		return nil, nil
 	}
@@ -1281,4 +1169,208 @@ func sameVal(a, b Val) bool {
 		return true
 	}
 	return false
+}
+
+// runBlocks executes the blocks of `order` (reverse post-order of a region). The
+// region's first block `start` begins in state st; when onlyPred != nil the
+// region was entered along the single edge onlyPred->start (tail duplication).
+func (x *Exec) runBlocks(fr *Frame, order []*ssa.BasicBlock, start *ssa.BasicBlock, st *State, onlyPred *ssa.BasicBlock,
+	edge map[*ssa.BasicBlock]map[*ssa.BasicBlock]*State, rets *[]retInfo, isUnit bool) {
+	done := map[*ssa.BasicBlock]bool{}
+	for _, b := range order {
+		if done[b] {
+			continue
+		}
+		fr.curBlock = b
+		var in *State
+		li := fr.loops[b]
+		if b == start {
+			in = st.Clone()
+		} else {
+			var incoming []*State
+			for _, p := range b.Preds {
+				if backEdge(p, b) {
+					continue
+				}
+				if e := edge[p][b]; e != nil {
+					incoming = append(incoming, e)
+				}
+			}
+			in = x.mergeStates(incoming)
+		}
+		if in == nil {
+			continue
+		}
+		if isUnit && li == nil && b != start {
+			if x.splitReturn(fr, b, edge, rets) {
+				continue
+			}
+			// tail duplication: a loop-free tail after a merge point is executed once per incoming path
+			if region := x.tailRegion(fr, b, edge); region != nil {
+				for _, p := range b.Preds {
+					e := edge[p][b]
+					if e == nil || isFalse(e.PC) || backEdge(p, b) {
+						continue
+					}
+					saved := make(map[ssa.Value]Val, len(fr.env))
+					for k, v := range fr.env {
+						saved[k] = v
+					}
+					savedNames := make(map[string]ssa.Value, len(fr.names))
+					for k, v := range fr.names {
+						savedNames[k] = v
+					}
+					sub := map[*ssa.BasicBlock]map[*ssa.BasicBlock]*State{p: {b: e}}
+					x.runBlocks(fr, region, b, e, p, sub, rets, isUnit)
+					fr.env = saved
+					fr.names = savedNames
+				}
+				for _, rb := range region {
+					done[rb] = true
+				}
+				continue
+			}
+		}
+		// phis (entry values for loop headers)
+		phiEntry := map[*ssa.Phi]Val{}
+		for _, ins := range b.Instrs {
+			phi, ok := ins.(*ssa.Phi)
+			if !ok {
+				break
+			}
+			var v Val
+			first := true
+			for i, p := range b.Preds {
+				if backEdge(p, b) {
+					continue
+				}
+				if b == start && onlyPred != nil && p != onlyPred {
+					continue
+				}
+				e := edge[p][b]
+				if e == nil || isFalse(e.PC) {
+					continue
+				}
+				pv := x.val(fr, phi.Edges[i])
+				if first {
+					v = pv
+					first = false
+				} else {
+					v = x.iteVal(e.PC, pv, v)
+				}
+			}
+			phiEntry[phi] = v
+			fr.env[phi] = v
+			if phi.Comment != "" {
+				fr.names[phi.Comment] = phi
+			}
+		}
+		if li != nil {
+			in = x.enterLoop(fr, li, in, phiEntry)
+			if in == nil {
+				continue
+			}
+		}
+		// push active loops for blocks inside loops of this frame
+		pushed := 0
+		for _, l := range fr.loops {
+			if l.body[b] {
+				x.activeLoops = append(x.activeLoops, l.key)
+				pushed++
+			}
+		}
+		cur := in
+		ended := false
+		for _, ins := range b.Instrs {
+			if _, ok := ins.(*ssa.Phi); ok {
+				continue
+			}
+			if isFalse(cur.PC) {
+				ended = true
+				break
+			}
+			x.curSite = x.siteOf(fr, ins)
+			switch t := ins.(type) {
+			case *ssa.If:
+				cond := x.val(fr, t.Cond).(VBool).T
+				s0 := cur.Clone()
+				s0.PC = x.C.And(cur.PC, cond)
+				s1 := cur.Clone()
+				s1.PC = x.C.And(cur.PC, x.C.Not(cond))
+				x.setEdge(fr, edge, b, b.Succs[0], s0)
+				x.setEdge(fr, edge, b, b.Succs[1], s1)
+				ended = true
+			case *ssa.Jump:
+				x.setEdge(fr, edge, b, b.Succs[0], cur)
+				ended = true
+			case *ssa.Return:
+				// deferred calls were run by the explicit RunDefers instruction that precedes every return
+				var vals []Val
+				for _, r := range t.Results {
+					vals = append(vals, x.val(fr, r))
+				}
+				*rets = append(*rets, retInfo{cur, vals})
+				ended = true
+			case *ssa.Panic:
+				x.oblige(cur, "safe:assert", "panic", x.siteOf(fr, ins), "explicit panic reachable", x.C.False())
+				ended = true
+			default:
+				if !x.safeExecInstr(fr, cur, ins) {
+					ended = true
+				}
+			}
+			if ended {
+				break
+			}
+		}
+		x.activeLoops = x.activeLoops[:len(x.activeLoops)-pushed]
+	}
+}
+
+// tailRegion: if block b merges >= 2 live paths and everything reachable from b is loop free,
+// dominated by b and small, return that region in reverse post-order (b first).
+func (x *Exec) tailRegion(fr *Frame, b *ssa.BasicBlock, edge map[*ssa.BasicBlock]map[*ssa.BasicBlock]*State) []*ssa.BasicBlock {
+	live := 0
+	for _, p := range b.Preds {
+		if e := edge[p][b]; e != nil && !isFalse(e.PC) && !backEdge(p, b) {
+			live++
+		}
+	}
+	if live < 2 || len(fr.defers) > 0 && false {
+		return nil
+	}
+	for _, l := range fr.loops {
+		if l.body[b] {
+			return nil // inside a loop body: the back edge must see one merged state
+		}
+	}
+	seen := map[*ssa.BasicBlock]bool{}
+	var post []*ssa.BasicBlock
+	ok := true
+	var dfs func(n *ssa.BasicBlock)
+	dfs = func(n *ssa.BasicBlock) {
+		seen[n] = true
+		if fr.loops[n] != nil || !b.Dominates(n) {
+			ok = false
+			return
+		}
+		for _, s := range n.Succs {
+			if backEdge(n, s) {
+				ok = false
+				return
+			}
+			if !seen[s] {
+				dfs(s)
+			}
+		}
+		post = append(post, n)
+	}
+	dfs(b)
+	if !ok || len(post)*live > 60 {
+		return nil
+	}
+	for i, j := 0, len(post)-1; i < j; i, j = i+1, j-1 {
+		post[i], post[j] = post[j], post[i]
+	}
+	return post
 }
